@@ -61,6 +61,9 @@ def check (st : St) (op obs : String) : St × String :=
     (match st.bg.lookup r with
      | some id => haltRule { st with bg := st.bg.filter (·.1 ≠ r) } r id obs true
      | none => (st, "ok"))
+  | ["unhalt-intr", _, _] =>
+    -- an interrupted release releases nothing: the lock stays granted until the retry
+    (st, if obs == "eintr" || obs == "ok" || obs == "bad-op" then "ok" else s!"FAIL an interrupted release answered {obs.take 40}")
   | ["unhalt", r, id] =>
     let r := r.toNat?.getD 0
     (match st.halt with
